@@ -442,6 +442,11 @@ def scenario_pair(rng, sid):
             gen_db(rng, C, nme, [k for k in pool if rng.random() < 0.5], ops, cmax=cmax)
         ops += ["dump %s %s" % (C, nme), "import %s %s %s" % (C, nme, xB), "dump %s %s" % (C, nme),
                 "dump %s %s" % (A, nme), "import %s %s %s" % (A, nme, xB), "dump %s %s" % (A, nme)]
+    # a SECOND backup of A after it was changed by merges / imports (which may leave its tick where it was), restored into
+    # an empty dictionary: the snapshot must be the dictionary as it is now
+    E2 = "%sF" % sid
+    ops += ["dump %s %s" % (A, nme), "backup %s %s %s" % (A, nme, sA), "cat %s" % sA,
+            "dump %s %s" % (E2, nme), "restore %s %s %s" % (sA, E2, nme), "dump %s %s" % (E2, nme)]
     return ops
 
 
